@@ -58,6 +58,48 @@ def headOf (s : VM) (k : Key) : Option Head := (findInst s.ixs.ix k.1).bind (·.
 /-- `flow_id` per instance: all that `cfgOfInst` reads of `Rest.fx` -/
 def fxIds (fx : List (FUid × InstX)) : List (FUid × String) := fx.map fun p => (p.1, p.2.flowId)
 
-/-! ### token abstraction of a CoreVM state (`RoundMachine`) -/
+/-- element kinds for which one `slideStep` is "evaluate something, then `head.position = …`" (everything except
+    `ForkHead`, `MergeHeads`, `EndScope`) -/
+def Prim.slides : Prim → Bool
+  | .fork _ _ => false
+  | .merge _ => false
+  | .endScope _ => false
+  | _ => true
+
+/-! ### vocabulary of the step-labelling lemma (`Lemmas/SlideStepVM.lean`) -/
+
+/-- the state a run ends in (normal return or exception) -/
+def resSt {α : Type} : EStateM.Result VMErr VM α → VM
+  | .ok _ s => s
+  | .error _ s => s
+
+/-- what a statement that is not an index write leaves alone: the index component, the program, and the flow id of
+    every instance (all that `cfgOfInst` reads) -/
+structure Frame (s s' : VM) : Prop where
+  ixs : s'.ixs = s.ixs
+  prog : s'.r.prog = s.r.prog
+  ids : fxIds s'.r.fx = fxIds s.r.fx
+
+/-- `x` never changes the index component, the program or an instance's flow id — whether it returns or raises -/
+structure Keeps {α : Type} (x : M α) : Prop where
+  frame : ∀ s, Frame s (resSt (x s))
+
+/-- what `cfgOfInst f` returns, as a function of `Rest` -/
+def cfgOf (r : Rest) (f : FUid) : Option FlowCfg := (OMap.lookup f (fxIds r.fx)).bind r.prog.find
+
+/-- verdict on one run, for head `k` that had data `hd` in a state where the flow's config was `cfg`:
+    * normal return `a`: config unchanged, the head exists with the same status, and `T a (new position)`;
+    * Python exception: config unchanged, the head exists with the same status, and it either did not move or sits on
+      an element INSIDE the flow (it was moved onto a match element whose name evaluation raised);
+    * model-level stops (`outOfFuel`, `unsupported`, `guardFailed`): nothing is claimed. -/
+def LandsR {α : Type} (k : Key) (cfg : FlowCfg) (hd : Head) (T : α → Nat → Prop) : EStateM.Result VMErr VM α → Prop
+  | .ok a s' => cfgOf s'.r k.1 = some cfg ∧ ∃ hd', headOf s' k = some hd' ∧ hd'.status = hd.status ∧ T a hd'.pos
+  | .error (.py _ _) s' => cfgOf s'.r k.1 = some cfg ∧
+      ∃ hd', headOf s' k = some hd' ∧ hd'.status = hd.status ∧ (hd'.pos = hd.pos ∨ hd'.pos < cfg.elements.size)
+  | .error _ _ => True
+
+/-- `LandsR` for every state in which head `k` has data `hd` and the flow's config is `cfg` -/
+structure Lands {α : Type} (k : Key) (cfg : FlowCfg) (hd : Head) (T : α → Nat → Prop) (x : M α) : Prop where
+  run : ∀ s, cfgOf s.r k.1 = some cfg → headOf s k = some hd → LandsR k cfg hd T (x s)
 
 end NemoVerif.CoreVM
